@@ -1,6 +1,7 @@
 package props
 
 import (
+	"strings"
 	"context"
 	"fmt"
 	"sort"
@@ -25,6 +26,8 @@ type c16RunPlan struct {
 	SetupFail bool   `json:"setup_fail"`
 	SetupKind int    `json:"setup_kind"` // behaviour that makes the setup fail
 	Tick      int    `json:"tick"`
+	// NilRunFn: setup returns normally but hands back a nil iteration function
+	NilRunFn bool `json:"nil_run_fn,omitempty"`
 }
 
 type c16Params struct {
@@ -39,7 +42,7 @@ type c16Params struct {
 }
 
 var c16Keys = []string{"region", "Region", "zone", "az", "team", "Team", "env", "build_id", "a", "b", "A", "z9", "_x", "cluster", "Cluster", "k8s_ns"}
-var c16Vals = []string{"", "a", "b", "z", "eu-west-1", "us", "ünïcödé ✓", "with space", "\"quoted\"", "line\nbreak", "prod", "zzz", "AAA", "0", "{}", "a=b,c=d"}
+var c16Vals = []string{"", " lead", "trail ", " ", "\ttab\t", "a", "b", "z", "eu-west-1", "us", "ünïcödé ✓", "with space", "\"quoted\"", "line\nbreak", "prod", "zzz", "AAA", "0", "{}", "a=b,c=d"}
 var c16Names = []string{"verifScenario", "alpha", "beta", "scénario ü", "with space", "a/b:c", "x", "Alpha"}
 
 func init() {
@@ -85,7 +88,9 @@ func init() {
 					if !same {
 						rp.Scenario = c16Names[r.IntN(len(c16Names))]
 					}
-					if r.IntN(6) == 0 {
+					if r.IntN(12) == 0 {
+						rp.NilRunFn, rp.Mode = true, "users"
+					} else if r.IntN(6) == 0 {
 						rp.SetupFail = true
 						rp.SetupKind = pick(r, engine.BFail, engine.BFailNow, engine.BError, engine.BRequire, engine.BPanicString, engine.BPanicError, engine.BNilMap, engine.BPanicInt, engine.BNilDeref)
 					}
@@ -138,6 +143,9 @@ func c16Runs(c *core.Case, o *core.Outcome) {
 		scenario := func(t *f1testing.T) f1testing.RunFn {
 			if rp.SetupFail {
 				engine.Behave(t, rp.SetupKind)
+			}
+			if rp.NilRunFn {
+				return nil
 			}
 			return func(t *f1testing.T) {
 				n := started.Add(1)
@@ -205,7 +213,10 @@ func c16Runs(c *core.Case, o *core.Outcome) {
 		}
 		desc := fmt.Sprintf("%s run %d/%d scenario=%q mode=%s setupFail=%v(%s) labels=%v", p.Desc, ri+1, len(p.Runs), rp.Scenario, rp.Mode, rp.SetupFail, engine.BehaviourNames[rp.SetupKind], p.Labels)
 		su, fa, dr := resultCounts(r)
-		if int64(su+fa) != started.Load() || int64(fa) != failedPlanned.Load() {
+		// a nil iteration function: every invocation fails inside f1 (the harness' body never runs); the setup
+		// sample must agree with what the run itself says about its setup
+		setupReportedFailed := r.Result != nil && r.Result.Error() != nil && strings.Contains(r.Result.Error().Error(), "setup")
+		if !rp.NilRunFn && (int64(su+fa) != started.Load() || int64(fa) != failedPlanned.Load()) {
 			o.Violate("result:"+desc, "result %d/%d/%d does not match ground truth started=%d failed=%d (%s)", su, fa, dr, started.Load(), failedPlanned.Load(), desc)
 			return
 		}
@@ -250,7 +261,7 @@ func c16Runs(c *core.Case, o *core.Outcome) {
 				o.AddObs("series_checked", 1)
 				setupSamples += s.Count
 				wantRes := "success"
-				if rp.SetupFail {
+				if rp.SetupFail || (rp.NilRunFn && setupReportedFailed) {
 					wantRes = "fail"
 				}
 				if s.Labels["test"] != rp.Scenario || s.Labels["result"] != wantRes {
